@@ -97,7 +97,29 @@ def z3_timeout_ms(tier):
     return int(os.environ.get("VERIF_Z3_MS", "120000" if tier == "thorough" else "30000"))
 
 
-def smt_decider(hyps, goal, tier="quick", model_vars=None, model_fn=None, second_solver=None, logic_note=""):
+NO_CONTRACT_PREFIXES = ("ext:", "comp:")
+
+
+def _no_contract_symbols(exprs):
+    import z3
+    names, seen, todo = set(), set(), [e for e in exprs if z3.is_expr(e)]
+    while todo:
+        e = todo.pop()
+        i = e.get_id()
+        if i in seen:
+            continue
+        seen.add(i)
+        if z3.is_app(e):
+            n = e.decl().name()
+            if n.startswith(NO_CONTRACT_PREFIXES):
+                names.add(n)
+            todo.extend(e.children())
+        elif z3.is_quantifier(e):
+            todo.append(e.body())
+    return sorted(names)[:6]
+
+
+def smt_decider(hyps, goal, tier="quick", model_vars=None, model_fn=None, second_solver=None, logic_note="", sat_means=None):
     """Return a decide() closure: validity of (/\\ hyps) => goal.
     model_vars: dict name -> z3 expr evaluated in the counter-model.  model_fn: custom extractor(model)."""
     import z3
@@ -130,6 +152,13 @@ def smt_decider(hyps, goal, tier="quick", model_vars=None, model_fn=None, second
             except Exception:
                 model = {"_raw": str(m)[:2000], "_extract_error": traceback.format_exc()[-400:]}
             status, detail = REFUTED, "sat"
+            # A counter-model that may rest on what a library call WITHOUT an assumed contract does (its uninterpreted result
+            # `ext:...`, an unfolded comprehension `comp:...`, or "it might raise") is a missing contract, not yet a
+            # counterexample: marked NO-CONTRACT, and the caller (vcore/main.py) keeps it as a violation only if its replay
+            # finds a failing input on the real code; otherwise it is reported undecided.
+            nc = sat_means or _no_contract_symbols(list(hyps) + [goal])
+            if nc:
+                detail = "sat NO-CONTRACT: " + (nc if isinstance(nc, str) else "the formula mentions library calls without an assumed contract: " + ", ".join(nc))
         else:
             # z3 unknown: let cvc5 try
             smt2 = s.to_smt2()
